@@ -192,7 +192,10 @@ func (x *executor) sprintf(m *machine, fr *frame, in ssa.Instruction, key string
 		// (interface-wrapped) argument values, read from the varargs array at the call
 		va := args[1].t
 		if n, ok := numeralValue(c.slLen(va)); ok && n.IsInt64() && n.Int64() >= 0 && n.Int64() <= 6 {
-			et := types.NewInterfaceType(nil, nil)
+			var et types.Type = types.NewInterfaceType(nil, nil)
+			if sl, ok := args[1].typ.Underlying().(*types.Slice); ok {
+				et = sl.Elem()
+			}
 			arr := mkSelect(c.arrOf(m.st, et), c.slRef(va))
 			ts := []*T{c.termOf(args[0])}
 			for k := int64(0); k < n.Int64(); k++ {
